@@ -20,6 +20,8 @@ GEnv ==
           /\ (req[r].st # "done" \/ (req[r].c \in Conns /\ req[r].s \in open[req[r].c] \ doomed[req[r].c]))
     \/ \E r \in Reqs : CloseBody(r) /\ req[r].c \in Conns /\ req[r].s \in open[req[r].c] /\ Rec([e |-> "closebody", r |-> r])
     \/ \E c \in Conns, m \in MCMax : Settings(c, m) /\ m # maxc[c] /\ Rec([e |-> "settings", c |-> c, max |-> m])
+    \/ \E c \in Conns : \E k \in {"empty", "mfs", "iws", "hts"} : maxc[c] # Inf /\ hist[Len(hist)].e # "settings_other"
+          /\ SettingsOther(c) /\ Rec([e |-> "settings_other", c |-> c, kind |-> k])
     \/ \E c \in Conns : \E s \in open[c] \ send[c] : \E es \in BOOLEAN :
           Resp(c, s, es) /\ InFlight(OwnerOf(c, s), c, s) /\ Rec([e |-> "resp", r |-> OwnerOf(c, s), es |-> es])
     \/ \E c \in Conns : \E s \in open[c] \ send[c] : SData(c, s, TRUE) /\ ~InFlight(OwnerOf(c, s), c, s)
